@@ -31,7 +31,7 @@ func (S *MapStore) StartUpdateCrl(info *crlreader.CRLMetaInfo) error {
 }
 
 func (S *MapStore) InsertRevokedCert(entry *crlreader.CRLEntry) error {
-	s := entry.Issuer.String() + "_" + entry.RevokedCertificate.SerialNumber.String()
+	s := core.NameIdentity(entry.Issuer) + "_" + entry.RevokedCertificate.SerialNumber.String()
 	revokedCertBytes, err := S.Serializer.SerializeRevokedCert(entry.RevokedCertificate)
 	if err != nil {
 		return fmt.Errorf("could not serialize CRLEntry: %v", err)
@@ -44,7 +44,7 @@ func (S *MapStore) InsertRevokedCert(entry *crlreader.CRLEntry) error {
 
 }
 func (S *MapStore) GetCertRevocationStatus(issuer *pkix.RDNSequence, certSerial *big.Int) (*core.RevocationStatus, error) {
-	s := issuer.String() + "_" + certSerial.String()
+	s := core.NameIdentity(issuer) + "_" + certSerial.String()
 	revokedCertBytes, err := S.get(s)
 
 	revoked := false
